@@ -175,6 +175,10 @@ class Interp:
                 return out
             return self.bind(self.ev(e.test, env), k)
         if isinstance(e, ast.JoinedStr):
+            # f-strings are only abstracted where they build a message; one that FORMATS a value (a format spec / conversion) computes something the laws talk about
+            for part in e.values:
+                if isinstance(part, ast.FormattedValue) and (part.format_spec is not None or part.conversion != -1):
+                    raise Unsupported("f-string with a format spec or conversion")
             return [(z3.BoolVal(True), ("ret", SVal("str", "<msg>")))]
         if isinstance(e, ast.Call):
             return self.call(e, env)
